@@ -131,3 +131,39 @@ package webrtc
 //@ ensures old(pc.ConnectionState()) == specConnState(old(pc.isClosed.Load()), iceConnectionState, dtlsTransportState) ==> ghost(connEvents) == old(ghost(connEvents))
 //@ ensures old(pc.ConnectionState()) != specConnState(old(pc.isClosed.Load()), iceConnectionState, dtlsTransportState) ==> ghost(connEvents) == old(ghost(connEvents)) + 1
 //@ modifies pc.connectionState
+
+// ---------------------------------------------------------------- C18
+//@ func (*SCTPTransport).MaxChannels
+//@ props C18
+//@ requires r != nil
+//@ ensures r.maxChannels == nil ==> result == 65535
+//@ ensures r.maxChannels != nil ==> result == *r.maxChannels
+//@ modifies nothing
+
+//@ field SCTPTransport.maxChannels props C18 writers (*SCTPTransport).updateMaxChannels
+//@ field SCTPTransport.dataChannelIDsUsed props C18 writers (*API).NewSCTPTransport
+
+//@ func (*SCTPTransport).updateMaxChannels
+//@ props C18
+//@ requires r != nil
+//@ ensures r.maxChannels != nil && *r.maxChannels == 65535
+
+// RFC 8832 parity, never 65535, different from every id in use, and the in-use
+// set grows by exactly the new id (nothing else changes; on failure nothing changes).
+//@ func (*SCTPTransport).generateAndSetDataChannelID
+//@ props C18
+//@ requires r != nil && idOut != nil && r.dataChannelIDsUsed != nil && !sameobj(idOut, r)
+//@ requires r.maxChannels == nil || *r.maxChannels == 65535
+//@ observe dtlsRole
+//@ ensures err == nil ==> *idOut != nil && fresh(*idOut)
+//@ ensures err == nil && dtlsRole == DTLSRoleClient ==> **idOut % 2 == 0
+//@ ensures err == nil && dtlsRole != DTLSRoleClient ==> **idOut % 2 == 1
+//@ ensures err == nil ==> **idOut != 65535
+//@ ensures err == nil ==> indom(r.dataChannelIDsUsed, **idOut) && (forall k uint16 :: k == **idOut ==> !old(indom(r.dataChannelIDsUsed, k)))
+//@ ensures err == nil ==> (forall k uint16 :: k != **idOut ==> indom(r.dataChannelIDsUsed, k) == old(indom(r.dataChannelIDsUsed, k)))
+//@ ensures err != nil ==> (forall k uint16 :: indom(r.dataChannelIDsUsed, k) == old(indom(r.dataChannelIDsUsed, k)))
+//@ ensures err != nil ==> *idOut == old(*idOut)
+//@ loop 0 invariant (dtlsRole == DTLSRoleClient ==> id % 2 == 0) && (dtlsRole != DTLSRoleClient ==> id % 2 == 1)
+//@ loop 0 invariant forall k uint16 :: indom(r.dataChannelIDsUsed, k) == old(indom(r.dataChannelIDsUsed, k))
+//@ loop 0 invariant *idOut == old(*idOut) && r.dataChannelIDsUsed == old(r.dataChannelIDsUsed)
+//@ loop 0 decreases int(maxVal) + 2 - int(id)
